@@ -592,3 +592,13 @@ Definition anext_okb (ops : list instr) : bool :=
 Definition plainb (ops : list instr) : bool :=
   forallb (fun o => negb (is_op op_SEND o) && negb (is_op op_CLEANUP_THROW o) &&
                     match eaft o with None => true | Some _ => false end) ops.
+
+(* does some element occur twice?  (used to state the refutation of the partition clause) *)
+Fixpoint has_dup (l : list N) : bool :=
+  match l with
+  | [] => false
+  | x :: t => memN x t || has_dup t
+  end.
+
+(* the instructions of all blocks, by index, in block order *)
+Definition block_instrs (bs : list block) : list N := map idx (concat (map code bs)).
